@@ -33,6 +33,8 @@ def run(ctx):
     rule_F6(ctx)
     # histories with resumes: the file pairs points_<i> with bound_<i> only if every change
     # of the shell numbering is followed by a full write
+    from ..initrules import rule_I1
+    rule_I1(ctx, {'rows'})
     rule_P4_sampler_subset(ctx, ('points', 'bound', 'shell_t', 'pop_shell', 'add_bound',
                                  'first-batch', 'update-shell', 'batch-checkpointed'),
                            'points, bounds and the transfer set')
